@@ -74,7 +74,7 @@ def near_points(node, env, rng, out, fwd=lambda p: p):
 
 def make_case(ctx, idx):
     rng = ctx.rng
-    mode = rng.choice(["solid2", "solid2", "solid2", "solid1", "solid3", "prod", "prod", "bdry", "bdry", "bdry-adjacent"])
+    mode = rng.choice(["solid2", "solid2", "solid2", "solid1", "solid3", "prod", "prod", "bdry", "bdry", "bdry-adjacent", "bdry-contained"])
     params = rng.choice([[], ["t"], ["t", "D"], ["t", "D"]])
     g = Gen(rng, params=params, p_default=0.5)   # parameter functions with a defaulted argument: supplied values must win
     depth = rng.choice([1, 2, 2, 3, 3]) if ctx.quick else rng.choice([1, 2, 3, 3, 4])
@@ -104,8 +104,35 @@ def make_case(ctx, idx):
         d1 = [c1[0] - o[0], c1[1] - o[1]]
         sh = lambda pt: geomgen.PF([geomgen.c(pt[0] + d1[0]), geomgen.c(pt[1] + d1[1])])
         b = geomgen.Node("par", "x", [sh(o), sh(c1), sh(c2)])
-        inner = geomgen.Node("union", None, [], [a, b] if rng.random() < 0.5 else [b, a])
+        # half of them built as UnionDomain(a, b, disjoint=True): the flag must not change membership
+        inner = geomgen.Node("union", None, [], [a, b] if rng.random() < 0.5 else [b, a],
+                             flags=({"disjoint": True} if rng.random() < 0.5 else None))
         node = geomgen.Node("bdry", None, [], [inner])
+    elif mode == "bdry-contained":
+        # CutDomain(A, B, contained=True) with B inside A but touching A's boundary: B = the sub-parallelogram at A's
+        # origin corner spanning s, t of A's edges.  The shared edge pieces are NOT boundary of A - B.
+        params = []
+        g = Gen(rng, params=[])
+        while True:
+            a = g.prim2("x")
+            if a.kind == "par":
+                break
+        if rng.random() < 0.5:
+            # axis-parallel with dyadic coordinates: every float32 operation of the membership tests is exact here, so the
+            # implementation's answer on the shared edge is deterministic (it rejects) — no rounding excuse
+            o0 = [geomgen.dy(rng, -2, 2), geomgen.dy(rng, -2, 2)]
+            w, h = rng.choice([1, -1]) * geomgen.dy(rng, 0.5, 3), rng.choice([1, -1]) * geomgen.dy(rng, 0.5, 3)
+            e1, e2 = ([w, 0], [0, h]) if rng.random() < 0.5 else ([0, h], [w, 0])
+            cst0 = lambda pt: geomgen.PF([geomgen.c(pt[0]), geomgen.c(pt[1])])
+            a = geomgen.Node("par", "x", [cst0(o0), cst0([o0[0] + e1[0], o0[1] + e1[1]]), cst0([o0[0] + e2[0], o0[1] + e2[1]])])
+        o, c1, c2 = [p_.eval({}) for p_ in a.pfs]
+        d1 = [c1[0] - o[0], c1[1] - o[1]]
+        d2 = [c2[0] - o[0], c2[1] - o[1]]
+        s_, t_ = rng.choice([(Fr(1, 2), Fr(1, 2)), (Fr(1), Fr(1, 2)), (Fr(1, 2), Fr(1)), (Fr(1, 4), Fr(3, 4)), (Fr(3, 4), Fr(1))])
+        cst = lambda pt: geomgen.PF([geomgen.c(pt[0]), geomgen.c(pt[1])])
+        b = geomgen.Node("par", "x", [cst(o), cst([o[0] + s_ * d1[0], o[1] + s_ * d1[1]]), cst([o[0] + t_ * d2[0], o[1] + t_ * d2[1]])])
+        inner = geomgen.Node("cut", None, [], [a, b], flags=({"contained": True} if rng.random() < 0.8 else None))
+        node = geomgen.Node("bdry", None, [], [inner]) if rng.random() < 0.8 else inner
     else:
         g.allow_rotate = False
         g.allow_translate = False
@@ -130,6 +157,15 @@ def make_case(ctx, idx):
             t = Fr(t8, 8)
             rows.append(({"x": [f32(c1[0] + t * (c2[0] - o[0])), f32(c1[1] + t * (c2[1] - o[1]))]}, {}))
         mode = "bdry"
+    if mode == "bdry-contained":
+        # points on the open shared edge pieces o + tau*s*d1 and o + tau*t*d2
+        first = len(rows)
+        for t8 in (1, 2, 3, 5, 6, 7):
+            tau = Fr(t8, 8)
+            rows.append(({"x": [f32(o[0] + tau * s_ * d1[0]), f32(o[1] + tau * s_ * d1[1])]}, {}))
+            rows.append(({"x": [f32(o[0] + tau * t_ * d2[0]), f32(o[1] + tau * t_ * d2[1])]}, {}))
+        ring_rows = list(range(first, len(rows)))
+        mode = "bdry" if node.kind == "bdry" else "solid2"
     # near-edge points (only for single-variable expressions)
     if len(node.vars()) == 1:
         var = node.vars()[0]
@@ -140,7 +176,12 @@ def make_case(ctx, idx):
             extra += [({var: [f32(a) for a in p]}, env) for p in pts if len(p) == geomgen.DIM[var]]
         rng.shuffle(extra)
         rows += extra[: ctx.scale(40, 120)]
-    return dict(id=idx, mode=mode, adjacent=(node.kind == "bdry" and node.kids[0].kind == "union" and all(k.kind == "par" for k in node.kids[0].kids)
+    shared_cut = bool(ring_rows) and node.kind == "bdry" and node.kids[0].kind == "cut"
+    axis_par = False
+    if shared_cut:
+        o_, c1_, c2_ = [p_.eval({}) for p_ in node.kids[0].kids[0].pfs]
+        axis_par = all(0 in (c_[0] - o_[0], c_[1] - o_[1]) for c_ in (c1_, c2_))
+    return dict(id=idx, mode=mode, shared_cut=shared_cut, axis_parallel=axis_par, adjacent=(node.kind == "bdry" and node.kids[0].kind == "union" and all(k.kind == "par" for k in node.kids[0].kids)
                                         and not node.free_vars() and bool(ring_rows)), ring_rows=ring_rows, dom=node.describe(), params=params,
                 rows=[({k_: [str(a) for a in v_] for k_, v_ in pt.items()}, {k_: [str(a) for a in v_] for k_, v_ in env.items()})
                       for pt, env in rows])
@@ -408,6 +449,11 @@ def interior_acceptance_all(cases, results, rep):
                 for dx, dy in RING:
                     ls.append(f"sd {solid} {env_tokens({'x': [x + rad * dx, y + rad * dy]})} {env_tokens(ee)}")
             ls.append(f"sd {solid} {env_tokens({'x': [x, y]})} {env_tokens(ee)}")
+            if cs.get("shared_cut"):
+                # exact position of the (float) point relative to the removed operand B
+                ls.append(f"sd {node.kids[0].kids[1].tokens()} {env_tokens({'x': [x, y]})} {env_tokens(ee)}")
+            # is the point itself a member of the solid (exact)?  a member whose neighbours are outside IS a boundary point
+            ls.append(f"contains {ATOL} {RTOL} {BATOL} {solid} {env_tokens({'x': [x, y]})} {env_tokens(ee)}")
             jobs.append((cs, i, len(lines), len(ls)))
             lines += ls
     if not lines:
@@ -418,6 +464,12 @@ def interior_acceptance_all(cases, results, rep):
         rep.count("accepted-boundary-points-ring-tested")
         if any(r == "none" for r in rs):
             continue
+        member = rs[-1].split()[0]
+        rs = rs[:-1]
+        sd_b = None
+        if cs.get("shared_cut"):
+            sd_b = Fr(rs[-1])
+            rs = rs[:-1]
         vals = [Fr(r) for r in rs]
         pt, env = cs["rows"][i]
         where = dict(dom=cs["dom"], expression=geomgen.from_json(cs["dom"]).tokens(), point=pt, params=env)
@@ -428,10 +480,16 @@ def interior_acceptance_all(cases, results, rep):
                      f"distance {float(RING_DELTA)} of it lies outside the domain and at least 28 lie strictly inside (exact signed CSG margin): it is an interior point, farther than the tolerance from the boundary",
                      where, finding=finding)
         # every probe (and the point itself) strictly outside the set: an exterior point
-        elif all(v_ < -MARGIN for v_ in vals):
-            rep.fail(f"boundary membership accepts the point {[float(Fr(a)) for a in pt['x']]}, but it and all 32 probe points within distance "
-                     f"{float(RING_DELTA)} of it lie strictly outside the domain (exact signed CSG margin): it is farther than the tolerance from the boundary",
-                     where)
+        elif member == "0" and all(v_ <= 0 for v_ in vals) and sum(1 for v_ in vals if v_ < -MARGIN) >= len(vals) - 5:
+            # known: on a slanted shared edge the sharp `not in B` test of CutBoundaryDomain is decided by float32 rounding (the exact
+            # position of the float point relative to B is within 1e-5 of the edge), so about half of those points are accepted;
+            # on an axis-parallel dyadic configuration every float operation is exact, the unchanged code rejects, and accepting
+            # is a new violation
+            finding = "cut_shared_boundary_piece" if (sd_b is not None and not cs.get("axis_parallel") and abs(sd_b) < Fr(1, 10 ** 5)) else None
+            rep.count("shared-cut-edge:" + ("slanted(sharp test undecidable in float32)" if finding else "axis-parallel(exact)") if sd_b is not None else "exterior-ring")
+            rep.fail(f"boundary membership accepts the point {[float(Fr(a)) for a in pt['x']]}, but no probe point within distance "
+                     f"{float(RING_DELTA)} of it lies inside the domain and at least 28 of 33 lie strictly outside (exact signed CSG margin): "
+                     f"it is farther than the tolerance from the boundary", where, finding=finding)
 
 
 def slice_stream(ctx, rep):
